@@ -535,13 +535,14 @@ func keysOf(md metadata.MD) []string {
 
 func init() {
 	core.Register(&core.Prop{
-		ID:            "C04",
-		Level:         "exploration",
-		Rule:          "each case = 20 RPCs (4 kinds cycling) on one connection; per RPC seeded metadata sets: request 0..16 keys via the outgoing context plus 0..4 (and appends to existing keys) via a client interceptor, response headers in two SetHeader/SendHeader calls (repeated keys append), trailers in two SetTrailer calls, keys over [0-9a-z_.-] in random letter case (no two keys equal up to case), 1..4 values, printable ASCII for text keys, arbitrary bytes (NUL, 0xFF, empty) under -bin; header way in {set only, SendHeader, with first message, with the trailer, with the trailer after a first SendMsg that fails to marshal}; 1 in 4 handlers fail; plus one directed RPC per case in which SendHeader is stalled behind the busy connection writer (parked at its hook) while a second goroutine of the handler calls SetHeader: a header that call accepted must reach the caller. Compared key by key (lower-cased keys, per-key order, byte-exact) at the handler, via Header()/Trailer(), via the client stats InHeader for unary headers and on the wire for unary trailers. distinct_nontrivial = RPCs (all distinct by seed) having a multi-valued key or a -bin value with NUL/non-ASCII bytes.",
-		Plan:          func(tier string, seed int64) int { return tierN(tier, 30, 2000) },
-		Run:           c04Run,
-		RequiredStats: func(string) []string { return []string{"rpcs", "metadata_keys_checked", "stalled_send_header_cases"} },
-		Assumptions:   []string{"no two keys of one set are equal up to letter case (their merge order is unspecified)"},
+		ID:             "C04",
+		Level:          "exploration",
+		Rule:           "each case = 20 RPCs (4 kinds cycling) on one connection; per RPC seeded metadata sets: request 0..16 keys via the outgoing context plus 0..4 (and appends to existing keys) via a client interceptor, response headers in two SetHeader/SendHeader calls (repeated keys append), trailers in two SetTrailer calls, keys over [0-9a-z_.-] in random letter case (no two keys equal up to case), 1..4 values, printable ASCII for text keys, arbitrary bytes (NUL, 0xFF, empty) under -bin; header way in {set only, SendHeader, with first message, with the trailer, with the trailer after a first SendMsg that fails to marshal}; 1 in 4 handlers fail; plus one directed RPC per case in which SendHeader is stalled behind the busy connection writer (parked at its hook) while a second goroutine of the handler calls SetHeader: a header that call accepted must reach the caller. Compared key by key (lower-cased keys, per-key order, byte-exact) at the handler, via Header()/Trailer(), via the client stats InHeader for unary headers and on the wire for unary trailers. distinct_nontrivial = RPCs (all distinct by seed) having a multi-valued key or a -bin value with NUL/non-ASCII bytes.",
+		Plan:           func(tier string, seed int64) int { return tierN(tier, 30, 2000) },
+		ThoroughRounds: 5,
+		Run:            c04Run,
+		RequiredStats:  func(string) []string { return []string{"rpcs", "metadata_keys_checked", "stalled_send_header_cases"} },
+		Assumptions:    []string{"no two keys of one set are equal up to letter case (their merge order is unspecified)"},
 	})
 }
 
